@@ -101,9 +101,9 @@ def classify(scn, iout):
         fid = None
         if got[0] == "mismatch" and feat["ndim_disagree"] and all(c in su.NDIM_BY_FIRST_UPDATE for c, _ in feat["ndim_disagree"]):
             fid = "C02-ndim-first-update"
-        elif got[0] == "exc" and got[1] in ("TypeError", "ValueError") and feat["bcast_root_shifted"]:
+        elif got[0] == "exc" and got[1] in ("TypeError", "ValueError") and feat["bcast_root_shifted"] and not su.detect_variant()["D9"]:
             fid = "C02-subgroup-bcast-root"
-        elif got[0] in ("ok", "exc") and feat["dict_unequal_keys"] and not feat["ndim_disagree"] and not feat["bcast_root_shifted"]:
+        elif got[0] in ("ok", "exc") and feat["dict_unequal_keys"] and not feat["ndim_disagree"] and (not feat["bcast_root_shifted"] or su.detect_variant()["D9"]):
             fid = "C02-dict-unequal-keys"
         bad.append((fid, f"group rank {j}: toolkit.{scn['entry']} gave {got!r:.220}; local merge gives {want!r:.220}"))
         break
@@ -199,6 +199,51 @@ def uninitialised_stream(ctx):
     ctx.oblige("property:C02-world1-identity (uninitialised)", ok)
 
 
+def schema_stream(ctx):
+    """Tie of Models/SyncSchema.v (reach_schema_agree_*): the kinds / ndim / dtype of the registered states of
+    the real classes after generated histories equal the model's schema run on the input shapes."""
+    import torch
+    s = ctx.stream("state-schema correspondence (per-class reach_schema_agree tie)")
+
+    def kind(v):
+        if isinstance(v, torch.Tensor):
+            return T("t", v.ndim, su.DTYPES[str(v.dtype).replace("torch.", "")])
+        return T("l") if isinstance(v, list) else T("d") if isinstance(v, dict) else T("i") if isinstance(v, int) else T("f")
+
+    def shape_of(args):
+        for a in args:
+            if su.is_tspec(a):
+                return list(a["shape"])
+        return []
+    cases, meta = [], []
+    for ck in SINGLE:
+        gen = su.classes()[ck][1]
+        for _ in range(ctx.n(12, 80)):
+            variant = {"Cat": "float32", "DummySumListStateMetric": 1}.get(ck)
+            hist = [gen(ctx.rng, variant) for _ in range(ctx.rng.choice([0, 0, 1, 2, 3]))]
+            if ck in su.NDIM_BY_FIRST_UPDATE and ck == "Covariance" and ctx.rng.random() < 0.3:
+                hist = [[su.gen_tensor(ctx.rng, "float32", 2, [0, 2])]] + hist       # an empty first batch
+            cases.append(("sync_schema", [T(ck), [shape_of(a) for a in hist]]))
+            meta.append((ck, hist))
+    outs = run_model(cases)
+    bad = {}
+    for (ck, hist), mout in zip(meta, outs):
+        try:
+            sd = su.build_metric(["m", ck, hist]).state_dict()
+            got = [[T(n), kind(sd[n])] for n in sorted(sd)]
+        except Exception as ex:
+            got = T("exc:" + type(ex).__name__)
+        s.case((ck, repr(su.jsonable(hist))), len(hist) >= 1)
+        s.count("class=" + ck)
+        if got != mout and ck not in bad:
+            bad[ck] = {"class": ck, "history": su.jsonable(hist), "model": repr(mout)[:300], "impl": repr(got)[:300]}
+    for ck in SINGLE:
+        ctx.oblige(f"tie:schema:{ck}", ck not in bad, detail=repr(bad.get(ck, ""))[:800])
+        if ck in bad:
+            s.mismatches.append(bad[ck])
+            ctx.violation("failing-input", ck, {"check": "schema-model-vs-impl", **bad[ck], "broken": f"tie:schema:{ck}"})
+
+
 def witness_stream(ctx):
     s = ctx.stream("refuted-witness-replay")
     cases = [su.model_case(scn) for _, scn in WITNESSES.values()]
@@ -214,6 +259,9 @@ def witness_stream(ctx):
                                                  "disagreement": d, "broken": f"tie:witness:{thm}"})
         bad = classify(scn, iout)
         s.count("still-fails" if bad else "no-longer-fails")
+        if not bad:
+            ctx.notes.append(f"stale finding {fid}: the witness of {thm} no longer fails on this tree (repaired); "
+                             f"the theorem remains a statement about the V_code variant of the model")
         for f2, desc in bad[:1]:
             ctx.violation("failing-input", thm, {"check": "sync-equals-local-merge", "scenario": su.jsonable(scn),
                                                  "observed": desc, "theorem": thm,
@@ -222,7 +270,10 @@ def witness_stream(ctx):
 
 def run(ctx):
     su.quiet()
+    ctx.notes.append(su.variant_note())
+    ctx.oblige("tie:variant-decided (" + su.variant_note() + ")", True)
     uninitialised_stream(ctx)
+    schema_stream(ctx)
     tie_stream(ctx, ctx.n(700, 6000))
     witness_stream(ctx)
     from .. import gloo_runner
